@@ -199,6 +199,49 @@ func (a Tuple) M__ne__(other Object) (Object, error) {
 	return False, nil
 }
 
+// seqOrder orders two item slices lexicographically: the first pair of
+// items that are not equal decides (by cmp), otherwise the lengths do
+func seqOrder(a, b []Object, cmp func(a, b Object) (Object, error), lenCmp func(la, lb int) bool) (Object, error) {
+	for i := 0; i < len(a) && i < len(b); i++ {
+		eq, err := Eq(a[i], b[i])
+		if err != nil {
+			return nil, err
+		}
+		if eq == False {
+			return cmp(a[i], b[i])
+		}
+	}
+	return NewBool(lenCmp(len(a), len(b))), nil
+}
+
+func (a Tuple) M__lt__(other Object) (Object, error) {
+	if b, ok := other.(Tuple); ok {
+		return seqOrder(a, b, Lt, func(la, lb int) bool { return la < lb })
+	}
+	return NotImplemented, nil
+}
+
+func (a Tuple) M__le__(other Object) (Object, error) {
+	if b, ok := other.(Tuple); ok {
+		return seqOrder(a, b, Le, func(la, lb int) bool { return la <= lb })
+	}
+	return NotImplemented, nil
+}
+
+func (a Tuple) M__gt__(other Object) (Object, error) {
+	if b, ok := other.(Tuple); ok {
+		return seqOrder(a, b, Gt, func(la, lb int) bool { return la > lb })
+	}
+	return NotImplemented, nil
+}
+
+func (a Tuple) M__ge__(other Object) (Object, error) {
+	if b, ok := other.(Tuple); ok {
+		return seqOrder(a, b, Ge, func(la, lb int) bool { return la >= lb })
+	}
+	return NotImplemented, nil
+}
+
 // Check interface is satisfied
 var _ sequenceArithmetic = Tuple(nil)
 var _ I__str__ = Tuple(nil)
@@ -210,4 +253,4 @@ var _ I__getitem__ = Tuple(nil)
 var _ I__eq__ = Tuple(nil)
 var _ I__ne__ = Tuple(nil)
 
-// var _ richComparison = Tuple(nil)
+var _ richComparison = Tuple(nil)
